@@ -15,11 +15,13 @@ package sqlc
 // No verdict depends on wall-clock time.
 
 import (
+	"context"
 	"database/sql"
 	"errors"
 	"fmt"
 	"math"
 	"runtime"
+	"sort"
 	"strconv"
 	"strings"
 	"sync"
@@ -57,9 +59,11 @@ type c06DB struct {
 	inflight map[string]int
 	maxIn    map[string]int
 	// stampede control
-	gate    chan struct{} // non-nil: query callbacks block here
-	entered chan string   // non-nil: a callback announces itself
-	jitter  bool
+	failNext int           // the next n query callbacks fail with c06ErrDB (database trouble)
+	failed   int64         // query callbacks that failed so
+	gate     chan struct{} // non-nil: query callbacks block here
+	entered  chan string   // non-nil: a callback announces itself
+	jitter   bool
 }
 
 func newC06DB() *c06DB {
@@ -90,6 +94,43 @@ func (d *c06DB) enter(slot string) {
 			runtime.Gosched()
 		}
 	}
+}
+
+var c06ErrDB = errors.New("c06: database unavailable")
+
+// failing reports (and consumes) an armed database failure for the current query callback.
+func (d *c06DB) failing() bool {
+	d.mu.Lock()
+	defer d.mu.Unlock()
+	if d.failNext > 0 {
+		d.failNext--
+		d.failed++
+		return true
+	}
+	return false
+}
+
+func (d *c06DB) armFail(n int) {
+	d.mu.Lock()
+	d.failNext = n
+	d.mu.Unlock()
+}
+
+func (d *c06DB) failedCount() int64 {
+	d.mu.Lock()
+	defer d.mu.Unlock()
+	return d.failed
+}
+
+func (d *c06DB) all() []c06Row {
+	d.mu.Lock()
+	defer d.mu.Unlock()
+	out := make([]c06Row, 0, len(d.rows))
+	for _, r := range d.rows {
+		out = append(out, r)
+	}
+	sort.Slice(out, func(i, j int) bool { return out[i].ID < out[j].ID })
+	return out
 }
 
 func (d *c06DB) leave(slot string) {
@@ -141,8 +182,39 @@ func (d *c06DB) del(id int64) {
 
 func (d *c06DB) q() int64 { return atomic.LoadInt64(&d.queries) }
 
-// c06Conn is the sqlx.Conn handed to CachedConn; the callbacks never use it.
-type c06Conn struct{ sqlx.Conn }
+// c06Conn is the sqlx.Conn handed to CachedConn. The cached paths never use it (their
+// callbacks go to the model directly); the *NoCache / Transact entry points of CachedConn
+// forward to the four methods below.
+type c06Conn struct {
+	sqlx.Conn
+	db *c06DB
+}
+
+// ExecCtx: args[0] is the mutation to apply to the model database.
+func (c c06Conn) ExecCtx(_ context.Context, _ string, args ...any) (sql.Result, error) {
+	args[0].(func())()
+	return nil, nil
+}
+
+// QueryRowCtx: select by id (args[0]).
+func (c c06Conn) QueryRowCtx(_ context.Context, v any, _ string, args ...any) error {
+	r, ok := c.db.byID(args[0].(int64))
+	if !ok {
+		return sqlx.ErrNotFound
+	}
+	*v.(*c06Row) = r
+	return nil
+}
+
+// QueryRowsCtx: select all rows ordered by id.
+func (c c06Conn) QueryRowsCtx(_ context.Context, v any, _ string, _ ...any) error {
+	*v.(*[]c06Row) = c.db.all()
+	return nil
+}
+
+func (c c06Conn) TransactCtx(ctx context.Context, fn func(context.Context, sqlx.Session) error) error {
+	return fn(ctx, nil)
+}
 
 // ---------------------------------------------------------------------------
 // redis side
@@ -351,7 +423,7 @@ func c06Build(env *c06Env, tp c06Topo, db *c06DB, prefix string) c06Sys {
 		nodes = 3
 	}
 	if tp.Kind == "nodeconn" {
-		cc = NewNodeConn(c06Conn{}, redis.New(env.mrs[0].Addr()), opts...)
+		cc = NewNodeConn(c06Conn{db: db}, redis.New(env.mrs[0].Addr()), opts...)
 	} else {
 		var conf cache.Config
 		for i := 0; i < nodes; i++ {
@@ -361,7 +433,7 @@ func c06Build(env *c06Env, tp c06Topo, db *c06DB, prefix string) c06Sys {
 			}
 			conf = append(conf, cache.NodeConfig{Config: redis.Config{Host: env.mrs[i].Addr(), Type: redis.NodeType}, Weight: w})
 		}
-		cc = NewConn(c06Conn{}, conf, opts...)
+		cc = NewConn(c06Conn{db: db}, conf, opts...)
 	}
 	return c06Sys{cc: cc, db: db, prefix: prefix}
 }
@@ -380,6 +452,9 @@ func (s c06Sys) findOne(id int64) (c06Row, error) {
 	err := s.cc.QueryRow(&row, key, func(conn sqlx.Conn, v any) error {
 		s.db.enter("pk:" + key)
 		defer s.db.leave("pk:" + key)
+		if s.db.failing() {
+			return c06ErrDB
+		}
 		r, ok := s.db.byID(id)
 		if !ok {
 			return ErrNotFound
@@ -404,6 +479,9 @@ func (s c06Sys) findByIndex(field, val string) (c06Row, error) {
 	}, func(conn sqlx.Conn, v any) (any, error) {
 		s.db.enter("idx:" + key)
 		defer s.db.leave("idx:" + key)
+		if s.db.failing() {
+			return nil, c06ErrDB
+		}
 		r, ok := look(val)
 		if !ok {
 			return nil, ErrNotFound
@@ -417,6 +495,9 @@ func (s c06Sys) findByIndex(field, val string) (c06Row, error) {
 		}
 		s.db.enter("pk:" + s.pk(id))
 		defer s.db.leave("pk:" + s.pk(id))
+		if s.db.failing() {
+			return c06ErrDB
+		}
 		r, ok := s.db.byID(id)
 		if !ok {
 			return ErrNotFound
@@ -593,6 +674,9 @@ type c06Hist struct {
 	counts   map[string]int64
 	ttl      *c06TTLStats
 	nodesHit map[int]bool
+	// per-op flags for checkRead
+	dbFailedInOp bool
+	corruptInOp  bool
 }
 
 func (h *c06Hist) desc() string {
@@ -691,6 +775,28 @@ func (h *c06Hist) checkRead(kind string, got c06Row, err error, want c06Row, exi
 		return false
 	}
 	key0 := keys[0]
+	if h.dbFailedInOp {
+		// the database failed under this read: no row can be promised, but the failure must
+		// not be turned into an answer (a wrong row, or not-found for a row that exists)
+		switch {
+		case err == nil && exists && got == want:
+			h.counts["reads_ok_row"]++
+		case err == nil:
+			h.m.Violate("C06:dberror:answered-with-wrong-row:"+kind, h.desc(), "%s: a database query failed during the read, yet it returned %+v with nil error (database has %+v, exists=%v)", what, got, want, exists)
+			return true
+		case exists && errors.Is(err, ErrNotFound):
+			h.m.Violate("C06:dberror:reported-as-not-found:"+kind, h.desc(), "%s: a database query failed during the read and the read reported not-found although the row exists", what)
+			return true
+		default:
+			h.counts["reads_failed_on_db_error"]++
+		}
+		return false
+	}
+	if h.corruptInOp && err != nil && !errors.Is(err, ErrNotFound) {
+		// an undecodable cache entry surfaced as an error: neither a stale nor a wrong answer
+		h.counts["reads_failed_on_corrupt_entry"]++
+		return false
+	}
 	switch {
 	case exists && err == nil && got == want:
 		h.counts["reads_ok_row"]++
@@ -718,6 +824,44 @@ func (h *c06Hist) checkRead(kind string, got c06Row, err error, want c06Row, exi
 	return false
 }
 
+// checkGetCache: GetCache answers from the cache only. A miss (ErrNotFound) is always
+// legal; a value must be the database's current row.
+func (h *c06Hist) checkGetCache(got c06Row, err error, want c06Row, exists bool, key string, log []c06Cmd) (bad bool) {
+	what := fmt.Sprintf("op #%d %s", len(h.ops), vk.JSON(h.ops[len(h.ops)-1]))
+	injectedGet := false
+	for _, c := range log {
+		if c.Injected && c.Cmd == "GET" {
+			injectedGet = true
+		}
+	}
+	switch {
+	case h.isDown || injectedGet:
+		h.counts["reads_under_cache_failure"]++
+		if err == nil || errors.Is(err, ErrNotFound) {
+			h.m.Violate("C06:passthrough:cache-error-swallowed:getCache", h.desc(), "%s: redis failed but GetCache returned %+v err=%v (a cache failure other than a miss must be returned)", what, got, err)
+			return true
+		}
+	case errors.Is(err, breaker.ErrServiceUnavailable):
+		h.counts["reads_rejected_by_breaker"]++
+	case h.taint[key]:
+		h.counts["reads_unchecked_pending_failed_delete"]++
+	case errors.Is(err, ErrNotFound):
+		h.counts["getcache_miss"]++
+	case err != nil:
+		h.m.Violate("C06:read:unexpected-error:getCache", h.desc(), "%s: returned error %v with redis healthy", what, err)
+		return true
+	case !exists:
+		h.m.Violate("C06:coherence:phantom-row:getCache:after-"+h.lw(key), h.desc(), "%s: returned %+v, database has no such row (last write naming the key: %s)", what, got, h.lw(key))
+		return true
+	case got != want:
+		h.m.Violate("C06:coherence:stale-read:getCache:after-"+h.lw(key), h.desc(), "%s: returned %+v, database has %+v (last write naming the key: %s)", what, got, want, h.lw(key))
+		return true
+	default:
+		h.counts["getcache_hit_ok"]++
+	}
+	return false
+}
+
 // run executes one seeded history; returns false if a violation ended it.
 func (h *c06Hist) run(r interface {
 	Intn(int) int
@@ -725,7 +869,7 @@ func (h *c06Hist) run(r interface {
 	s := h.sys
 	nextVer := int64(1)
 	for step := 0; step < nops; step++ {
-		x := r.Intn(100)
+		x := r.Intn(122)
 		op := c06Op{}
 		id := int64(1 + r.Intn(4))
 		name := c06Names[r.Intn(len(c06Names))]
@@ -760,12 +904,33 @@ func (h *c06Hist) run(r interface {
 			if op.D < 1 {
 				op.D = 1
 			}
-		default:
+		case x < 100:
 			if h.faults < 3 && !h.isDown && r.Intn(8) == 0 { // rare: each failing command costs the client's retry back-off
 				op.Op = "down"
 			} else {
 				op = c06Op{Op: "findOne", ID: id}
 			}
+		case x < 104:
+			op = c06Op{Op: "getCache", ID: id}
+		case x < 107:
+			op = c06Op{Op: "update1", ID: id} // touches no index column: names the primary key only
+		case x < 109:
+			op = c06Op{Op: "updateNoCache", ID: id, Name: name, Email: email} // ExecNoCache + DelCache
+		case x < 111:
+			op = c06Op{Op: "updateTx", ID: id, Name: name, Email: email} // Transact + DelCache
+		case x < 113:
+			op = c06Op{Op: "readNoCache", ID: id}
+		case x < 114:
+			op = c06Op{Op: "execFail", ID: id}
+		case x < 115:
+			op = c06Op{Op: "delCache0"}
+		case x < 118:
+			op = c06Op{Op: "corrupt", ID: id, D: r.Intn(3)}
+		default:
+			op = c06Op{Op: "dbfault", ID: id, Name: name, D: r.Intn(2)}
+		}
+		if h.isDown && (op.Op == "corrupt" || op.Op == "dbfault") {
+			op = c06Op{Op: "findOne", ID: id}
 		}
 		// make writes applicable to the current database
 		switch op.Op {
@@ -788,7 +953,7 @@ func (h *c06Hist) run(r interface {
 			} else {
 				op.ID, op.Name, op.Email = int64(fi+1), c06Names[fn], c06Emails[fe]
 			}
-		case "update":
+		case "update", "updateNoCache", "updateTx":
 			cur, ok := h.db.byID(op.ID)
 			if !ok {
 				op = c06Op{Op: "findByName", Name: name}
@@ -800,12 +965,16 @@ func (h *c06Hist) run(r interface {
 			if o, taken := h.db.byEmail(op.Email); taken && o.ID != cur.ID {
 				op.Email = cur.Email
 			}
-		case "delete", "setCache":
+		case "delete", "setCache", "update1":
 			if _, ok := h.db.byID(op.ID); !ok {
 				op = c06Op{Op: "findOne", ID: id}
 			}
 		}
-		if fault != "" && op.Op != "ff" && op.Op != "down" && op.Op != "up" {
+		switch op.Op {
+		case "ff", "down", "up", "dbfault", "readNoCache", "execFail", "delCache0":
+			fault = ""
+		}
+		if fault != "" {
 			op.Fault = fault
 			op.Node = -1
 			if r.Intn(2) == 0 {
@@ -817,7 +986,121 @@ func (h *c06Hist) run(r interface {
 		h.counts["op_"+op.Op]++
 		q0 := h.db.q()
 		bad := false
+		h.dbFailedInOp, h.corruptInOp = false, false
 		switch op.Op {
+		case "getCache":
+			var got c06Row
+			err := s.cc.GetCache(s.pk(op.ID), &got)
+			log, _ := h.env.take()
+			want, exists := h.db.byID(op.ID)
+			bad = h.absorb(log, "getCache", false, nil, false) || h.checkGetCache(got, err, want, exists, s.pk(op.ID), log)
+		case "update1":
+			cur, _ := h.db.byID(op.ID)
+			row := cur
+			row.Ver = nextVer
+			nextVer++
+			keys := []string{s.pk(row.ID)}
+			err := s.exec(func() { h.db.put(row) }, keys...)
+			bad = h.afterWrite("update1", err, keys)
+		case "updateNoCache", "updateTx":
+			cur, _ := h.db.byID(op.ID)
+			row := c06Row{ID: op.ID, Name: op.Name, Email: op.Email, Ver: nextVer}
+			nextVer++
+			keys := c06Uniq(s.pk(row.ID), s.nameKey(cur.Name), s.nameKey(row.Name), s.emailKey(cur.Email), s.emailKey(row.Email))
+			var err error
+			if op.Op == "updateNoCache" {
+				_, err = s.cc.ExecNoCache("update user", func() { h.db.put(row) })
+			} else {
+				err = s.cc.Transact(func(sqlx.Session) error { h.db.put(row); return nil })
+			}
+			if got, _ := h.db.byID(row.ID); err != nil || got != row {
+				h.m.Inconclusive("case %d: %s did not reach the model database (err=%v)", h.idx, op.Op, err)
+				return false
+			}
+			err = s.cc.DelCache(keys...)
+			bad = h.afterWrite(op.Op, err, keys)
+		case "readNoCache":
+			var got c06Row
+			err := s.cc.QueryRowNoCache(&got, "select by id", op.ID)
+			want, exists := h.db.byID(op.ID)
+			var rows []c06Row
+			err2 := s.cc.QueryRowsNoCache(&rows, "select all")
+			log, _ := h.env.take()
+			all := h.db.all()
+			what := fmt.Sprintf("op #%d %s", len(h.ops), vk.JSON(op))
+			switch {
+			case exists && (err != nil || got != want), !exists && !errors.Is(err, ErrNotFound):
+				h.m.Violate("C06:coherence:stale-read:queryRowNoCache", h.desc(), "%s: QueryRowNoCache returned %+v err=%v, database has %+v (exists=%v)", what, got, err, want, exists)
+				bad = true
+			case err2 != nil || fmt.Sprint(rows) != fmt.Sprint(all):
+				h.m.Violate("C06:coherence:stale-read:queryRowsNoCache", h.desc(), "%s: QueryRowsNoCache returned %+v err=%v, database has %+v", what, rows, err2, all)
+				bad = true
+			default:
+				h.counts["reads_ok_nocache"]++
+				h.counts["nocache_redis_commands"] += int64(len(log))
+			}
+		case "execFail":
+			keys := []string{s.pk(op.ID)}
+			_, err := s.cc.Exec(func(sqlx.Conn) (sql.Result, error) { return nil, c06ErrDB }, keys...)
+			log, _ := h.env.take()
+			if err != nil {
+				h.counts["failed_exec_reported"]++
+			}
+			bad = h.absorb(log, "execFail", false, nil, false) // database unchanged: nothing can become stale
+		case "delCache0":
+			if err := s.cc.DelCache(); err != nil {
+				h.counts["delcache_errors"]++
+			}
+			h.env.take()
+		case "corrupt":
+			// an undecodable entry sits under the primary key (foreign writer / old schema)
+			key := s.pk(op.ID)
+			for _, mr := range h.env.mrs {
+				_ = mr.Set(key, []string{"{bad json", `"just a string"`, "[1,2"}[op.D%3])
+			}
+			h.corruptInOp = true
+			got, err := s.findOne(op.ID)
+			log, qi := h.env.take()
+			want, exists := h.db.byID(op.ID)
+			bad = h.absorb(log, "corrupt", false, nil, false) || h.checkRead("findOne:corrupt-entry", got, err, want, exists, []string{key}, log, qi, q0)
+			if !bad && err == nil {
+				h.counts["corrupt_entries_healed"]++
+			}
+			if !bad && err != nil {
+				// whatever is left under the key is not a row of an older version; make sure of it
+				for _, mr := range h.env.mrs {
+					mr.Del(key)
+				}
+			}
+		case "dbfault":
+			f0 := h.db.failedCount()
+			h.db.armFail(1)
+			var got c06Row
+			var err error
+			var want c06Row
+			var exists bool
+			var keys []string
+			kind := "findOne"
+			if op.D == 0 {
+				got, err = s.findOne(op.ID)
+				want, exists = h.db.byID(op.ID)
+				keys = []string{s.pk(op.ID)}
+			} else {
+				kind = "findByName"
+				got, err = s.findByIndex("name", op.Name)
+				want, exists = h.db.byName(op.Name)
+				keys = []string{s.nameKey(op.Name)}
+				if exists {
+					keys = append(keys, s.pk(want.ID))
+				}
+			}
+			h.db.armFail(0)
+			h.dbFailedInOp = h.db.failedCount() > f0
+			if h.dbFailedInOp {
+				h.counts["db_query_failures"]++
+			}
+			log, qi := h.env.take()
+			bad = h.absorb(log, "dbfault", op.D != 0, nil, false) || h.checkRead(kind, got, err, want, exists, keys, log, qi, q0)
 		case "findOne":
 			got, err := s.findOne(op.ID)
 			log, qi := h.env.take()
